@@ -553,4 +553,4 @@ def check(ctx: Ctx) -> None:
     r11_2(ctx)
     r11_6(ctx)
     r11_4(ctx)
-    r11_3(ctx)
+    r11_3(ctx, armed=True)
